@@ -83,6 +83,14 @@ func (s *Server) urlGenHandlerFunc(w http.ResponseWriter, r *http.Request) {
 		}
 		templateName = "drms"
 	case "/urlgen/create":
+		for _, key := range []string{"tsbd", "ltgt", "patch-ttl"} {
+			if val := r.URL.Query().Get(key); val != "" {
+				if _, err := strconv.Atoi(val); err != nil {
+					http.Error(w, fmt.Sprintf("bad %s: %q is not an integer", key, val), http.StatusBadRequest)
+					return
+				}
+			}
+		}
 		data = createURL(r, aInfo, s.Cfg.DrmCfg)
 	default:
 		data, err = s.createInitData(aInfo)
